@@ -361,6 +361,8 @@ def word(alpha, classes):
 
 DIGIT_RUNS = ['1', '5', '0', '9', '10', '50', '05', '67', '36', '33', '84', '100', '400', '914', '1500', '42195', '00100', '1609', '0800', '726', '260', '123456', '000', '00005', '7260', '0000001', '9' * 30]
 UNI_DIGITS = ['\u0663', '\uff11\uff12', '\u0967']          # Arabic-Indic 3, fullwidth 12, Devanagari 1
+UNI_DIGITS_QUICK = ['\u0661\u0665', '\uff17']                 # Arabic-Indic 15, fullwidth 7
+UNI_DIGITS = UNI_DIGITS + UNI_DIGITS_QUICK
 ALL_SPACES = [chr(c) for c in (9, 10, 11, 12, 13, 28, 29, 30, 31, 0x85, 0xa0, 0x1680, 0x2000, 0x2003, 0x2009, 0x200a, 0x2028, 0x2029,
                                0x202f, 0x205f, 0x3000)]
 
@@ -386,7 +388,7 @@ class Skeletons(object):
         if kind == 'digit':
             opts = [c for c in '1509234678' if c in asc]
             if len(asc) == 10:
-                opts = ['1', '5', '0', '9'] + (['2', '3', '4', '6', '7', '8', UNI_DIGITS[0]] if self.rich else [])
+                opts = ['1', '5', '0', '9'] + (['2', '3', '4', '6', '7', '8', UNI_DIGITS[0]] if self.rich else [UNI_DIGITS[0]])
             return tuple(opts)
         if kind == 'space':
             return tuple([' '] + (ALL_SPACES if self.rich else ['\t']))
@@ -397,8 +399,9 @@ class Skeletons(object):
         ok = lambda r: len(r) >= lo and (hi is None or len(r) <= hi)
         if kind == 'digit':
             runs = [r for r in DIGIT_RUNS if ok(r) and all(ch in asc for ch in r)]
-            if len(asc) == 10 and self.rich:
-                runs += [r for r in UNI_DIGITS if ok(r)]
+            if len(asc) == 10:
+                # \d is Unicode-aware: runs written in other decimal digits are accepted codes too (quick: two of them, thorough: all listed)
+                runs += [r for r in (UNI_DIGITS if self.rich else UNI_DIGITS_QUICK) if ok(r)]
             if not runs:
                 # narrow digit classes such as [45678]: all members at the minimal length
                 runs = [c * max(lo, 1) for c in asc if ok(c * max(lo, 1))]
